@@ -17,6 +17,7 @@ import (
 	"sort"
 	"strconv"
 	"strings"
+	"testing/iotest"
 
 	"github.com/cosmos72/gomacro/base"
 	"github.com/cosmos72/gomacro/go/etoken"
@@ -27,7 +28,11 @@ import (
 //
 // op:  rd <opts> <L|B> <hex bytes of the stream> [<hex: offsets p with "no cut allowed strictly inside [a,b)" as a,b pairs>]
 //   L = the stream is delivered line by line through a Readline written here
-//   B = the stream is delivered through the real base.BufReadline (whole buffer behind a bufio.Reader)
+//   every other mode = the REAL line source base.MakeBufReadline(bufio.Reader) over the whole stream:
+//   B = bufio.NewReader (4096-byte buffer, as Interp.EvalReader), B16 / B64 = bufio.NewReaderSize 16 / 64
+//   (every line longer than the buffer), O / H / D = bufio.NewReader over iotest.OneByteReader /
+//   HalfReader / DataErrReader (short reads, data delivered together with EOF)
+// The stream is hex, optionally run-length coded: segments separated by '.', a segment is HEX or HEX*COUNT.
 // ReadMultiline is called until it returns io.EOF; Out lists every call:
 //   <len>:<firstToken>:<err>  ...  sum=<additive checksum of all returned bytes>
 //
@@ -86,21 +91,32 @@ func c26errStr(err error) string {
 	}
 	// unexpected character '\n' inside string literal
 	s := err.Error()
-	ctx := "?"
 	if strings.Contains(s, "inside rune") {
-		ctx = "rune"
+		return "Erune"
 	} else if strings.Contains(s, "inside string") {
-		ctx = "string"
+		return "Estring"
 	}
-	return "E" + ctx
+	return "Eio(" + strings.ReplaceAll(s, " ", "-") + ")" // an error of the line source itself
 }
 
 func c26run(src []byte, opts base.ReadOptions, mode string) []c26chunk {
 	var in base.Readline
-	if mode == "B" {
-		in = base.MakeBufReadline(bufio.NewReader(bytes.NewReader(append([]byte(nil), src...))))
-	} else {
+	rd := func() *bytes.Reader { return bytes.NewReader(append([]byte(nil), src...)) }
+	switch mode {
+	case "L":
 		in = &c26lineReader{lines: c26splitLines(src)}
+	case "B16":
+		in = base.MakeBufReadline(bufio.NewReaderSize(rd(), 16))
+	case "B64":
+		in = base.MakeBufReadline(bufio.NewReaderSize(rd(), 64))
+	case "O":
+		in = base.MakeBufReadline(bufio.NewReader(iotest.OneByteReader(rd())))
+	case "H":
+		in = base.MakeBufReadline(bufio.NewReader(iotest.HalfReader(rd())))
+	case "D":
+		in = base.MakeBufReadline(bufio.NewReader(iotest.DataErrReader(rd())))
+	default: // "B"
+		in = base.MakeBufReadline(bufio.NewReader(rd()))
 	}
 	var out []c26chunk
 	for k := 0; k < len(src)+3; k++ {
@@ -346,6 +362,28 @@ func c26tokens(src []byte, gomacroSyntax bool) (toks []c26tok, ok bool) {
 
 // ---------------------------------------------------------------- Exec
 
+// c26decode: HEX or HEX*COUNT segments separated by '.'
+func c26decode(s string) ([]byte, error) {
+	var out []byte
+	for _, seg := range strings.Split(s, ".") {
+		h, cnt, rep := strings.Cut(seg, "*")
+		b, err := hex.DecodeString(h)
+		if err != nil {
+			return nil, err
+		}
+		n := 1
+		if rep {
+			if n, err = strconv.Atoi(cnt); err != nil {
+				return nil, err
+			}
+		}
+		for i := 0; i < n; i++ {
+			out = append(out, b...)
+		}
+	}
+	return out, nil
+}
+
 func c26checksum(b []byte) int {
 	s := 0
 	for i, c := range b {
@@ -361,7 +399,7 @@ func c26exec(op string) Result {
 	}
 	o, _ := strconv.Atoi(f[1])
 	mode := f[2]
-	src, err := hex.DecodeString(f[3])
+	src, err := c26decode(f[3])
 	if err != nil {
 		return Result{Out: "bad-hex"}
 	}
@@ -385,7 +423,7 @@ func c26exec(op string) Result {
 	}
 	fmt.Fprintf(&sb, "sum=%d", c26checksum(all))
 	res := Result{Out: sb.String()}
-	tags := map[string]bool{}
+	tags := map[string]bool{"mode-" + mode: true}
 	stop := false
 	viol := func(key, desc string) {
 		stop = true
@@ -397,13 +435,17 @@ func c26exec(op string) Result {
 				return
 			}
 			res.Key = key
-			res.Viol = fmt.Sprintf("%s; stream=%q chunks=%s", desc, src, c26showChunks(chunks))
+			shown := fmt.Sprintf("%q", src)
+			if len(src) > 400 {
+				shown = fmt.Sprintf("%q...(%d bytes)...%q", src[:150], len(src), src[len(src)-150:])
+			}
+			res.Viol = fmt.Sprintf("%s; stream=%s chunks=%s", desc, shown, c26showChunks(chunks))
 		}
 	}
 
 	// ---- oracle
 	in := src
-	if mode == "B" && bytes.Contains(src, []byte("\xe2\x80\xa9")) {
+	if mode != "L" && bytes.Contains(src, []byte("\xe2\x80\xa9")) {
 		tags["u2029"] = true
 	}
 	ref := c26lex(in)
@@ -434,7 +476,7 @@ func c26exec(op string) Result {
 		end := off + len(c.src)
 		if end > len(in) || !bytes.Equal([]byte(c.src), ref.rw[off:end]) {
 			key := "concat-differs"
-			if mode == "B" && tags["u2029"] {
+			if mode != "L" && tags["u2029"] {
 				key = "concat-differs:u2029-to-newline"
 			}
 			viol(key, fmt.Sprintf("call %d returned bytes that are not the next bytes of the stream (with '#!' as '//') at offset %d", ci, off))
@@ -507,6 +549,18 @@ func c26exec(op string) Result {
 			if es == "UEOF" {
 				tags["eof-unexpected"] = true
 			}
+		case strings.HasPrefix(es, "Eio"):
+			// the line source (BufReadline over an in-memory reader) must not fail: the chunk was cut
+			// wherever the failure happened
+			tags["err-line-source"] = true
+			where := "code"
+			if end <= len(in) {
+				where = c26cxName[ref.ctx[end]]
+				if where == "code" && ref.depth[end] > 0 {
+					where = "bracket"
+				}
+			}
+			viol("line-source-error:"+where, fmt.Sprintf("call %d: the line source failed with %q after %d bytes of the stream; the chunk ends inside %s", ci, c.err.Error(), end, where))
 		default:
 			tags["err-literal"] = true
 			// legitimate only if the reference sees a newline inside an interpreted literal there
@@ -579,7 +633,11 @@ var c26keyCount = map[string]int{}
 func c26showChunks(cs []c26chunk) string {
 	var l []string
 	for _, c := range cs {
-		l = append(l, fmt.Sprintf("(%q,%d,%s)", c.src, c.first, c26errStr(c.err)))
+		t := fmt.Sprintf("%q", c.src)
+		if len(c.src) > 120 {
+			t = fmt.Sprintf("%q...(%d bytes)...%q", c.src[:40], len(c.src), c.src[len(c.src)-40:])
+		}
+		l = append(l, fmt.Sprintf("(%s,%d,%s)", t, c.first, c26errStr(c.err)))
 	}
 	s := strings.Join(l, " ")
 	if len(s) > 600 {
@@ -602,7 +660,7 @@ var c26more = []string{
 	"a = b //", "defer", "var", "else", "type T struct", "x_type := 1", "x = p.", ".m()", "+ 1", "-1", "<-ch", "   ", "\t",
 	"~'x", "~\"y", "~,z", "q := ~`{a}", "T#[int]{}", "type S interface { ~[]byte }", "~[]byte |", "func g[S ~[]E, E any](s S) {",
 	"\"unterminated", "'u", "s = \"esc\\", "*p = 1", "&v", "!ok", "^x", "case 1:", "L:", "x = y#!z", "y = x+", "y = x-", "z = x+-", "i++ // inc", "i-- /* dec */",
-	"import", "for", "x = 'a' +", "f(`a", "b`)", "x = y /", "/ 2", ")", "m[k] =", "y = a/[]int{1}[0]", "/* a */ // b", "go // run", "/** doc **/", "/***/ w := 1", "a = \"/*\"", "b = '\"'", "c = \"//\" +",
+	"import", "for", "x = 'a' +", "f(`a", "b`)", "x = y /", "/ 2", ")", "m[k] =", "y = a/[]int{1}[0]", "/* a */ // b", "2) +", "b) &&", "4] -", "}) ,", "1) /", "go // run", "/** doc **/", "/***/ w := 1", "a = \"/*\"", "b = '\"'", "c = \"//\" +",
 }
 
 func c26hexOp(opts int, mode string, src []byte, spans string) string {
@@ -630,6 +688,9 @@ func c26join(lines []string, term string, finalNL bool) []byte {
 func c26gen(r *rand.Rand, tier string, emit func(string)) {
 	all := append(append([]string{}, c26core...), c26more...)
 	modes := []string{"L", "B"}
+	// delivery of the template sequences: own Readline, and the real BufReadline over bufio readers whose
+	// buffer is smaller than most lines (16, 64), default-sized, and fed by short-read readers
+	seqModes := []string{"L", "B", "B16", "L", "B", "O", "L", "B64", "H", "L", "B", "D"}
 	k := 0
 	seq := func(ls []string) {
 		// opts and delivery alternate deterministically; a share without the final newline / with CRLF
@@ -646,7 +707,7 @@ func c26gen(r *rand.Rand, tier string, emit func(string)) {
 		if len(b) == 0 {
 			return
 		}
-		emit(c26hexOp(opts, modes[(k/2)%2], b, ""))
+		emit(c26hexOp(opts, seqModes[(k/2)%len(seqModes)], b, ""))
 	}
 	// (1) bounded-exhaustive: every sequence of <=2 lines over all templates, both option sets
 	for _, a := range all {
@@ -710,8 +771,119 @@ func c26gen(r *rand.Rand, tier string, emit func(string)) {
 	}
 	// (4) real files split at top-level boundaries
 	c26genFiles(r, tier, emit)
+	// (5) the real line source with lines around and beyond the bufio buffer sizes
+	c26genLong(r, tier, emit)
 	// the documented paragraph-separator rewrite of BufReadline (U+2029 -> newline) is observable only in mode B
 	emit(c26hexOp(0, "B", []byte("// a\u2029b\nx := 1\n"), ""))
+}
+
+// one long line of exactly n bytes (terminator included), as a run-length coded op segment list;
+// shapes: long string literal, raw string, line comment, block comment, one-line table, long expression
+func c26longLine(shape, n int, term string) string {
+	hx := func(s string) string { return hex.EncodeToString([]byte(s)) }
+	var head, unit, tail string
+	switch shape {
+	case 0:
+		head, unit, tail = `s = "`, "a", `"`
+	case 1:
+		head, unit, tail = "s = `", "r", "`"
+	case 2:
+		head, unit, tail = "x = 1 // ", "c", ""
+	case 3:
+		head, unit, tail = "/* ", "*", " */ y = 2"
+	case 4:
+		head, unit, tail = "t = []int{", "1, ", "2}"
+	case 5:
+		head, unit, tail = "z = a", " + a", ""
+	case 6:
+		head, unit, tail = `u = "`, "\x00\\\\", "\" + \"\x00\"" // NUL bytes and escapes inside a string
+	default:
+		head, unit, tail = "// ", "\u2028", " end" // U+2028 inside a comment
+	}
+	fixed := len(head) + len(tail) + len(term)
+	cnt := (n - fixed) / len(unit)
+	if cnt < 0 {
+		cnt = 0
+	}
+	pad := n - fixed - cnt*len(unit)
+	segs := []string{hx(head), fmt.Sprintf("%s*%d", hx(unit), cnt)}
+	if pad > 0 && shape != 0 && shape != 1 && shape != 6 {
+		segs = append(segs, fmt.Sprintf("20*%d", pad)) // blanks keep the exact length
+		pad = 0
+	}
+	if pad > 0 {
+		segs = append(segs, fmt.Sprintf("62*%d", pad)) // 'b' inside the literal
+	}
+	segs = append(segs, hx(tail+term))
+	return strings.Join(segs, ".")
+}
+
+func c26genLong(r *rand.Rand, tier string, emit func(string)) {
+	hx := func(s string) string { return hex.EncodeToString([]byte(s)) }
+	k := 0
+	one := func(shape, n int, term string, mode string, final bool) {
+		k++
+		before := []string{"", "x := 1\n", "f(\n", "// c\n"}[k%4]
+		after := []string{"y := 2\n", "g()", ")\n", ""}[k%4]
+		if !final {
+			after = ""
+			term = ""
+		}
+		segs := []string{}
+		if before != "" {
+			segs = append(segs, hx(before))
+		}
+		segs = append(segs, c26longLine(shape, n, term))
+		if after != "" {
+			segs = append(segs, hx(after))
+		}
+		emit(fmt.Sprintf("rd %d %s %s", []int{0, 2}[k%2], mode, strings.Join(segs, ".")))
+	}
+	near := []int{4095, 4096, 4097}
+	for _, n := range near {
+		for shape := 0; shape < 8; shape++ {
+			for _, mode := range []string{"B", "O", "H", "D"} {
+				one(shape, n, "\n", mode, true)
+			}
+			one(shape, n, "\r\n", "B", true)
+			one(shape, n, "", "B", false) // the long line is the last one and has no newline
+		}
+	}
+	for shape := 0; shape < 8; shape++ {
+		for _, n := range []int{8191, 8192, 8193} {
+			one(shape, n, "\n", []string{"B", "H"}[shape%2], true)
+		}
+		one(shape, 15+shape, "\n", "B16", true)
+		one(shape, 130, "\n", "B64", true)
+	}
+	big := []int{70000}
+	if tier == "thorough" {
+		big = []int{12288, 65536, 65537, 70000, 300000}
+	}
+	for _, n := range big {
+		for shape := 0; shape < 8; shape++ {
+			if tier != "thorough" && shape != 0 && shape != 4 && shape != 2 {
+				continue
+			}
+			one(shape, n, "\n", "B", true)
+		}
+	}
+	// several long lines in one stream, random lengths around the buffer size
+	nm := 40
+	if tier == "thorough" {
+		nm = 600
+	}
+	for i := 0; i < nm; i++ {
+		var segs []string
+		for j := 0; j < 2+r.Intn(3); j++ {
+			n := 4096 + r.Intn(9) - 4
+			if r.Intn(3) == 0 {
+				n = 20 + r.Intn(200)
+			}
+			segs = append(segs, c26longLine(r.Intn(8), n, []string{"\n", "\n", "\r\n"}[r.Intn(3)]))
+		}
+		emit(fmt.Sprintf("rd %d %s %s", []int{0, 2}[i%2], []string{"B", "O", "H", "D", "B64"}[i%5], strings.Join(segs, ".")))
+	}
 }
 
 func c26goFiles(root string, skipTestdata bool) []string {
